@@ -1658,11 +1658,12 @@ package connect
 //@   ensures callres("NewClient$2.unaryFunc", 1, 1) != nil ==> err == callres("NewClient$2.unaryFunc", 1, 1) && res == nil   // label: errors-pass-through-unchanged   // tags: C02
 
 //@ func (*Client).CallServerStream(c, ctx, request) (res, err)
-//@   tags C02, C04, C11
+//@   tags C02, C04, C11, C12
 //@   requires c != nil && request != nil && (c.err == nil ==> c.config != nil && c.protocolClient != nil)
 //@   assigns everything
 //@   ensures old(c.err) != nil ==> err == old(c.err) && res == nil
 //@   assert@call(mergeHeaders#1): arg0 == callres("StreamingClientConn.RequestHeader", 1) && arg1 == request.header   // label: request-headers-reach-the-connection   // tags: C11
+//@   assert@call((*Client).newConn#1): arg2 == 2   // label: server-stream-calls-are-labelled-server-stream   // tags: C12
 //@   ensures called("StreamingClientConn.Send", 1) && callres("StreamingClientConn.Send", 1) != nil && Is(callres("StreamingClientConn.Send", 1), io.EOF) && callres("StreamingClientConn.CloseRequest", 2) == nil ==> err == nil && res != nil && res.conn == callres("(*Client).newConn", 1)   // label: a-write-side-eof-does-not-hide-the-server's-answer   // tags: C02, C04
 //@   ensures called("StreamingClientConn.Send", 1) && callres("StreamingClientConn.Send", 1) != nil && !Is(callres("StreamingClientConn.Send", 1), io.EOF) ==> err == callres("StreamingClientConn.Send", 1) && res == nil   // label: a-client-side-send-failure-is-returned
 
@@ -2135,3 +2136,332 @@ package connect
 //@ func grpcUserAgent() res
 //@   tags C05
 //@   assigns nothing
+
+// ---------------------------------------------------------------------------
+// Accessors (C11: headers are what the transport delivered, trailers are not
+// passed off as headers; C12: the Spec is the connection's; C04/C14 shape:
+// closing delegates to the call). Small, but every one is a place where a
+// wrong field silently breaks a property.
+// ---------------------------------------------------------------------------
+
+//@ func (*duplexHTTPCall).Header(d) res
+//@   tags C11
+//@   requires d != nil && d.request != nil
+//@   assigns nothing
+//@   ensures res == d.request.Header   // label: the-request-headers
+//@ func (*duplexHTTPCall).Trailer(d) res
+//@   tags C11
+//@   requires d != nil && d.request != nil
+//@   assigns nothing
+//@   ensures res == d.request.Trailer
+//@ func (*duplexHTTPCall).ResponseHeader(d) res
+//@   tags C11
+//@   requires d != nil
+//@   assigns d.response, d.err
+//@   ensures d.response != nil ==> res == d.response.Header   // label: the-response-headers
+//@   ensures d.response == nil ==> res != nil
+//@ func (*duplexHTTPCall).ResponseStatusCode(d) (res, err)
+//@   tags C06
+//@   requires d != nil && d.request != nil
+//@   assigns d.response, d.err
+//@   ensures d.response != nil ==> res == d.response.StatusCode && err == nil
+//@   ensures d.response == nil ==> err != nil
+//@ func (*duplexHTTPCall).CloseWrite(d) err
+//@   tags C04
+//@   requires d != nil && d.requestBodyWriter != nil
+//@   assigns nothing
+//@   ensures called("(*duplexHTTPCall).ensureRequestMade", 1)   // label: closing-the-request-also-starts-it
+//@   ensures err == callres("(*io.PipeWriter).Close", 1)
+
+//@ constfield connectUnaryClientConn.spec, connectStreamingClientConn.spec, grpcClientConn.spec, connectUnaryHandlerConn.spec, connectStreamingHandlerConn.spec, grpcHandlerConn.spec
+//@ func (*connectUnaryClientConn).RequestHeader(cc) res
+//@   tags C11
+//@   requires cc != nil && cc.duplexCall != nil && cc.duplexCall.request != nil
+//@   assigns nothing
+//@   ensures res == cc.duplexCall.request.Header
+//@ func (*connectUnaryClientConn).ResponseHeader(cc) res
+//@   tags C11
+//@   requires cc != nil && cc.duplexCall != nil
+//@   assigns cc.duplexCall.response, cc.duplexCall.err
+//@   ensures res == cc.responseHeader   // label: headers-not-trailers
+//@ func (*connectUnaryClientConn).ResponseTrailer(cc) res
+//@   tags C11
+//@   requires cc != nil && cc.duplexCall != nil
+//@   assigns cc.duplexCall.response, cc.duplexCall.err
+//@   ensures res == cc.responseTrailer   // label: trailers-not-headers
+//@ func (*connectStreamingClientConn).RequestHeader(cc) res
+//@   tags C11
+//@   requires cc != nil && cc.duplexCall != nil && cc.duplexCall.request != nil
+//@   assigns nothing
+//@   ensures res == cc.duplexCall.request.Header
+//@ func (*connectStreamingClientConn).ResponseHeader(cc) res
+//@   tags C11
+//@   requires cc != nil && cc.duplexCall != nil
+//@   assigns cc.duplexCall.response, cc.duplexCall.err
+//@   ensures res == cc.responseHeader   // label: headers-not-trailers
+//@ func (*connectStreamingClientConn).ResponseTrailer(cc) res
+//@   tags C11
+//@   requires cc != nil && cc.duplexCall != nil
+//@   assigns cc.duplexCall.response, cc.duplexCall.err
+//@   ensures res == cc.responseTrailer   // label: trailers-not-headers
+//@ func (*grpcClientConn).RequestHeader(cc) res
+//@   tags C11
+//@   requires cc != nil && cc.duplexCall != nil && cc.duplexCall.request != nil
+//@   assigns nothing
+//@   ensures res == cc.duplexCall.request.Header
+//@ func (*grpcClientConn).ResponseHeader(cc) res
+//@   tags C11
+//@   requires cc != nil && cc.duplexCall != nil
+//@   assigns cc.duplexCall.response, cc.duplexCall.err
+//@   ensures res == cc.responseHeader   // label: headers-not-trailers
+//@ func (*grpcClientConn).ResponseTrailer(cc) res
+//@   tags C11
+//@   requires cc != nil && cc.duplexCall != nil
+//@   assigns cc.duplexCall.response, cc.duplexCall.err
+//@   ensures res == cc.responseTrailer   // label: trailers-not-headers
+
+//@ func (*connectUnaryHandlerConn).RequestHeader(hc) res
+//@   tags C11
+//@   requires hc != nil && hc.request != nil
+//@   assigns nothing
+//@   ensures res == hc.request.Header
+//@ func (*connectUnaryHandlerConn).ResponseHeader(hc) res
+//@   tags C11
+//@   requires hc != nil && hc.responseWriter != nil
+//@   assigns nothing
+//@   ensures res == hdrOf(hc.responseWriter)   // label: headers-go-straight-to-the-response
+//@ func (*connectUnaryHandlerConn).ResponseTrailer(hc) res
+//@   tags C11
+//@   requires hc != nil
+//@   assigns nothing
+//@   ensures res == hc.responseTrailer
+//@ func (*connectStreamingHandlerConn).RequestHeader(hc) res
+//@   tags C11
+//@   requires hc != nil && hc.request != nil
+//@   assigns nothing
+//@   ensures res == hc.request.Header
+//@ func (*connectStreamingHandlerConn).ResponseHeader(hc) res
+//@   tags C11
+//@   requires hc != nil && hc.responseWriter != nil
+//@   assigns nothing
+//@   ensures res == hdrOf(hc.responseWriter)
+//@ func (*connectStreamingHandlerConn).ResponseTrailer(hc) res
+//@   tags C11
+//@   requires hc != nil
+//@   assigns nothing
+//@   ensures res == hc.responseTrailer
+//@ func (*grpcHandlerConn).RequestHeader(hc) res
+//@   tags C11
+//@   requires hc != nil && hc.request != nil
+//@   assigns nothing
+//@   ensures res == hc.request.Header
+//@ func (*grpcHandlerConn).ResponseHeader(hc) res
+//@   tags C11
+//@   requires hc != nil
+//@   assigns nothing
+//@   ensures res == hc.responseHeader   // label: buffered-until-the-first-send
+//@ func (*grpcHandlerConn).ResponseTrailer(hc) res
+//@   tags C11
+//@   requires hc != nil
+//@   assigns nothing
+//@   ensures res == hc.responseTrailer
+
+// connect.go: requests and responses (C11: Header/Trailer create the map once
+// and always return the same one; a response's headers are not its trailers)
+//@ func (*Request).Header(r) res
+//@   tags C11
+//@   requires r != nil
+//@   assigns r.header
+//@   ensures res != nil && res == r.header && (old(r.header) != nil ==> res == old(r.header))   // label: one-header-map-per-request
+//@ func (*Request).Spec(r) res
+//@   tags C12
+//@   requires r != nil
+//@   assigns nothing
+//@   ensures res.Procedure == r.spec.Procedure && res.StreamType == r.spec.StreamType && res.IsClient == r.spec.IsClient
+//@ func (*Response).Header(r) res
+//@   tags C11
+//@   requires r != nil
+//@   assigns r.header
+//@   ensures res != nil && res == r.header && (old(r.header) != nil ==> res == old(r.header))   // label: one-header-map-per-response
+//@ func (*Response).Trailer(r) res
+//@   tags C11
+//@   requires r != nil
+//@   assigns r.trailer
+//@   ensures res != nil && res == r.trailer && (old(r.trailer) != nil ==> res == old(r.trailer))   // label: one-trailer-map-per-response
+
+// error.go: accessors
+//@ func (*Error).Unwrap(e) res
+//@   tags C02, C15
+//@   requires e != nil
+//@   assigns nothing
+//@   ensures res == e.err
+//@ func (*Error).Meta(e) res
+//@   tags C02, C11
+//@   requires e != nil
+//@   assigns e.meta
+//@   ensures res != nil && res == e.meta && (old(e.meta) != nil ==> res == old(e.meta))   // label: one-metadata-map-per-error
+
+// codec.go: the names the content types are built from
+//@ func (*protoBinaryCodec).Name(c) res
+//@   tags C05, C12
+//@   assigns nothing
+//@   ensures res == "proto"
+//@ func (*protoJSONCodec).Name(c) res
+//@   tags C05, C12
+//@   assigns nothing
+//@   ensures res == "json"
+
+// interceptor.go: a UnaryInterceptorFunc wraps unary calls with itself and
+// leaves streams alone (C16: what a leaf contributes)
+//@ func (UnaryInterceptorFunc).WrapStreamingClient(f, next) res
+//@   tags C16
+//@   assigns nothing
+//@   ensures res == next   // label: streams-are-not-wrapped
+//@ func (UnaryInterceptorFunc).WrapStreamingHandler(f, next) res
+//@   tags C16
+//@   assigns nothing
+//@   ensures res == next   // label: streams-are-not-wrapped
+
+// typed stream views: header accessors delegate to the connection
+//@ func (*ClientStream).RequestHeader(c) res
+//@   tags C11
+//@   requires c != nil && c.conn != nil
+//@   assigns nothing
+//@   ensures res == callres("StreamingHandlerConn.RequestHeader", 1)
+//@ func (*ServerStream).ResponseHeader(s) res
+//@   tags C11
+//@   requires s != nil && s.conn != nil
+//@   assigns nothing
+//@   ensures res == callres("StreamingHandlerConn.ResponseHeader", 1)   // label: headers-not-trailers
+//@ func (*ServerStream).ResponseTrailer(s) res
+//@   tags C11
+//@   requires s != nil && s.conn != nil
+//@   assigns nothing
+//@   ensures res == callres("StreamingHandlerConn.ResponseTrailer", 1)   // label: trailers-not-headers
+//@ func (*BidiStream).RequestHeader(b) res
+//@   tags C11
+//@   requires b != nil && b.conn != nil
+//@   assigns nothing
+//@   ensures res == callres("StreamingHandlerConn.RequestHeader", 1)
+//@ func (*BidiStream).ResponseHeader(b) res
+//@   tags C11
+//@   requires b != nil && b.conn != nil
+//@   assigns nothing
+//@   ensures res == callres("StreamingHandlerConn.ResponseHeader", 1)   // label: headers-not-trailers
+//@ func (*BidiStream).ResponseTrailer(b) res
+//@   tags C11
+//@   requires b != nil && b.conn != nil
+//@   assigns nothing
+//@   ensures res == callres("StreamingHandlerConn.ResponseTrailer", 1)   // label: trailers-not-headers
+//@ func (*ServerStreamForClient).ResponseHeader(s) res
+//@   tags C11
+//@   requires s != nil && (s.constructErr == nil ==> s.conn != nil)
+//@   assigns nothing
+//@   ensures s.constructErr == nil ==> res == callres("StreamingClientConn.ResponseHeader", 1)   // label: headers-not-trailers
+//@ func (*ServerStreamForClient).ResponseTrailer(s) res
+//@   tags C11
+//@   requires s != nil && (s.constructErr == nil ==> s.conn != nil)
+//@   assigns nothing
+//@   ensures s.constructErr == nil ==> res == callres("StreamingClientConn.ResponseTrailer", 1)   // label: trailers-not-headers
+//@ func (*BidiStreamForClient).ResponseHeader(b) res
+//@   tags C11
+//@   requires b != nil && (b.err == nil ==> b.conn != nil)
+//@   assigns nothing
+//@   ensures b.err == nil ==> res == callres("StreamingClientConn.ResponseHeader", 1)   // label: headers-not-trailers
+//@ func (*BidiStreamForClient).ResponseTrailer(b) res
+//@   tags C11
+//@   requires b != nil && (b.err == nil ==> b.conn != nil)
+//@   assigns nothing
+//@   ensures b.err == nil ==> res == callres("StreamingClientConn.ResponseTrailer", 1)   // label: trailers-not-headers
+//@ func (*BidiStreamForClient).RequestHeader(b) res
+//@   tags C11
+//@   requires b != nil && (b.err == nil ==> b.conn != nil)
+//@   assigns nothing
+//@   ensures b.err == nil ==> res == callres("StreamingClientConn.RequestHeader", 1)
+//@ func (*ClientStreamForClient).RequestHeader(c) res
+//@   tags C11
+//@   requires c != nil && (c.err == nil ==> c.conn != nil)
+//@   assigns nothing
+//@   ensures c.err == nil ==> res == callres("StreamingClientConn.RequestHeader", 1)
+
+// option.go: the remaining options set exactly what they say (C08: request
+// compression name and the registered pools; C05/C12: protocol choice)
+//@ func WithSendCompression(name) res
+//@   tags C08
+//@   ensures fresh(res) && typeis(res, "*sendCompressionOption") && cast(res, "*sendCompressionOption").Name == name
+//@ func WithSendGzip() res
+//@   tags C08
+//@   ensures res != nil && typeis(res, "*sendCompressionOption") && cast(res, "*sendCompressionOption").Name == "gzip"
+//@ func (*sendCompressionOption).applyToClient(o, config)
+//@   tags C08
+//@   requires o != nil && config != nil
+//@   assigns config.RequestCompressionName
+//@   ensures config.RequestCompressionName == o.Name
+//@ func WithGRPC() res
+//@   tags C05, C12
+//@   ensures fresh(res) && typeis(res, "*grpcOption") && !cast(res, "*grpcOption").web
+//@ func WithGRPCWeb() res
+//@   tags C05, C12
+//@   ensures fresh(res) && typeis(res, "*grpcOption") && cast(res, "*grpcOption").web
+//@ func (*grpcOption).applyToClient(o, config)
+//@   tags C05, C12
+//@   requires o != nil && config != nil
+//@   assigns config.Protocol
+//@   ensures config.Protocol != nil && typeis(config.Protocol, "*protocolGRPC") && cast(config.Protocol, "*protocolGRPC").web == o.web   // label: the-client-speaks-the-chosen-protocol
+//@ func (*compressionOption).applyToClient(o, config)
+//@   tags C08
+//@   requires o != nil && config != nil && config.CompressionPools != nil
+//@   assigns mapof(config.CompressionPools), mapvals(config.CompressionPools), config.CompressionNames
+//@   ensures o.Name != "" && o.CompressionPool != nil ==> mapdom(config.CompressionPools, o.Name) && mapval(config.CompressionPools, o.Name) == o.CompressionPool && config.CompressionNames == old(config.CompressionNames) ++ [o.Name]   // label: the-algorithm-is-registered-under-its-name-and-preferred-last
+//@   ensures o.Name == "" || o.CompressionPool == nil ==> config.CompressionNames == old(config.CompressionNames)
+//@ func (*compressionOption).applyToHandler(o, config)
+//@   tags C08
+//@   requires o != nil && config != nil && config.CompressionPools != nil
+//@   assigns mapof(config.CompressionPools), mapvals(config.CompressionPools), config.CompressionNames
+//@   ensures o.Name != "" && o.CompressionPool != nil ==> mapdom(config.CompressionPools, o.Name) && mapval(config.CompressionPools, o.Name) == o.CompressionPool && config.CompressionNames == old(config.CompressionNames) ++ [o.Name]   // label: the-algorithm-is-registered-under-its-name-and-preferred-last
+//@   ensures o.Name == "" || o.CompressionPool == nil ==> config.CompressionNames == old(config.CompressionNames)
+//@ func (*codecOption).applyToClient(o, config)
+//@   tags C05, C12
+//@   requires o != nil && config != nil
+//@   assigns config.Codec
+//@   ensures o.Codec != nil && callres("Codec.Name", 1) != "" ==> config.Codec == o.Codec
+//@   ensures o.Codec == nil ==> config.Codec == old(config.Codec)
+
+// handler.go: each constructor builds a handler of its own stream type (C12)
+//@ func NewClientStreamHandler(procedure, implementation, options) res
+//@   tags C12
+//@   requires implementation != nil
+//@   assigns everything
+//@   assert@call(newStreamHandler#1): arg0 == procedure && arg1 == 1 && arg3 == options   // label: client-stream-handlers-are-labelled-client-stream
+//@ func NewServerStreamHandler(procedure, implementation, options) res
+//@   tags C12
+//@   requires implementation != nil
+//@   assigns everything
+//@   assert@call(newStreamHandler#1): arg0 == procedure && arg1 == 2 && arg3 == options   // label: server-stream-handlers-are-labelled-server-stream
+//@ func NewBidiStreamHandler(procedure, implementation, options) res
+//@   tags C12
+//@   requires implementation != nil
+//@   assigns everything
+//@   assert@call(newStreamHandler#1): arg0 == procedure && arg1 == 3 && arg3 == options   // label: bidi-handlers-are-labelled-bidi
+
+// client.go: the public calls
+//@ constfield Client.err, Client.config, Client.protocolClient, Client.callUnary
+//@ func (*Client).CallUnary(c, ctx, request) (res, err)
+//@   tags C02, C12
+//@   requires c != nil && (c.err == nil ==> c.callUnary != nil)
+//@   assigns everything
+//@   ensures old(c.err) != nil ==> err == old(c.err) && res == nil   // label: a-client-that-could-not-be-built-fails-every-call
+//@ func (*Client).CallClientStream(c, ctx) res
+//@   tags C12, C02
+//@   requires c != nil && (c.err == nil ==> c.config != nil && c.protocolClient != nil)
+//@   assigns everything
+//@   ensures res != nil && (old(c.err) != nil ==> res.err == old(c.err) && res.conn == nil)
+//@   ensures old(c.err) == nil ==> res.err == nil && res.conn == callres("(*Client).newConn", 1)
+//@   assert@call((*Client).newConn#1): arg2 == 1   // label: client-stream-calls-are-labelled-client-stream
+//@ func (*Client).CallBidiStream(c, ctx) res
+//@   tags C12, C02
+//@   requires c != nil && (c.err == nil ==> c.config != nil && c.protocolClient != nil)
+//@   assigns everything
+//@   ensures res != nil && (old(c.err) != nil ==> res.err == old(c.err) && res.conn == nil)
+//@   ensures old(c.err) == nil ==> res.err == nil && res.conn == callres("(*Client).newConn", 1)
+//@   assert@call((*Client).newConn#1): arg2 == 3   // label: bidi-calls-are-labelled-bidi
